@@ -32,6 +32,9 @@ big = x => x > 2
 evenidx = (x, i) => i % 2 == 0
 failing = x => if x == 3 then nope_undefined else x > 1
 nonbool = x => x
+nullish = x => if x > 2 then true else null
+alwaysnull = x => null
+field = x => {a: 1}.active
 acc2 = (a, x) => a + x
 acc3 = (a, x, i) => a + x * i
 accrest = (...a) => a
@@ -67,6 +70,9 @@ const CALLEES: &[(&str, usize, Option<usize>, Kind, &str)] = &[
     ("evenidx", 2, Some(2), Kind::Pred, "arity2"),
     ("failing", 1, Some(1), Kind::Pred, "failing"),
     ("nonbool", 1, Some(1), Kind::Pred, "nonbool"),
+    ("nullish", 1, Some(1), Kind::Pred, "null-result"),
+    ("alwaysnull", 1, Some(1), Kind::Pred, "null-result"),
+    ("field", 1, Some(1), Kind::Pred, "null-result"),
     ("(x => x * 2)", 1, Some(1), Kind::Unary, "anonymous"),
     ("((x, i) => [i, x])", 2, Some(2), Kind::Unary, "anonymous-arity2"),
     ("(x => x .== 2)", 1, Some(1), Kind::Pred, "anonymous"),
